@@ -247,6 +247,12 @@ pub fn build(code: u32, need_reply: bool, var: &str, v: u64, rng: &mut Rng) -> B
                 "wrap" => {
                     off = (u32::MAX - size).wrapping_add(1 + (size > 1) as u32);
                 }
+                "size_huge" => {
+                    // a window that starts inside the configuration space and whose 32-bit end wraps
+                    off = 1 + rng.below(0xfff) as u32;
+                    size = if rng.bool() { u32::MAX } else { (0u32).wrapping_sub(off) };
+                    plen = 8;
+                }
                 "flags_undef" => flags |= 1 << (2 + rng.below(30)),
                 "payload_short" => plen -= 1,
                 "payload_long" => plen += 1,
@@ -383,7 +389,7 @@ pub fn body_rules(code: u32) -> &'static [&'static str] {
         9 => &["flags_undef", "desc_unaligned", "used_unaligned", "avail_unaligned"],
         12 | 13 | 14 => &["nofdbit_with_fd", "fdbit_without_fd"],
         18 => &["num2"],
-        24 | 25 => &["size0", "end_gt", "wrap", "flags_undef", "payload_short", "payload_long"],
+        24 | 25 => &["size0", "end_gt", "wrap", "size_huge", "flags_undef", "payload_short", "payload_long"],
         31 | 32 => &["nq0", "qs0"],
         37 | 38 => &["size0", "gpa_wrap", "ua_wrap", "off_wrap", "size_max"],
         41 => &["nil", "max"],
